@@ -5,6 +5,8 @@ S = "monkeytype/db/sqlite.py"
 TR = "monkeytype/tracing.py"
 CF = "monkeytype/config.py"
 ST = "monkeytype/stubs.py"
+CLI = "monkeytype/cli.py"
+TC = "monkeytype/type_checking_imports_transformer.py"
 MUTANTS = {
     "c04_required_any": {
         "props": ["C04"],
@@ -438,5 +440,37 @@ MUTANTS = {
     "c14_attribute_stubs_unsorted": {
         "props": ["C14"],
         "edits": [(ST, "                for stub in sorted(self.attribute_stubs, key=lambda stub: stub.name)", "                for stub in self.attribute_stubs")],
+    },
+    "c15_overwrite_inverted": {
+        "props": ["C15"],
+        "edits": [(CLI, "            overwrite_existing_annotations,\n            use_future_annotations", "            not overwrite_existing_annotations,\n            use_future_annotations")],
+    },
+    "c15_file_not_written": {
+        "props": ["C15"],
+        "edits": [(CLI, "    source_path.write_text(source_with_types)\n", "    Path(str(source_path) + '.typed').write_text(source_with_types)\n")],
+    },
+    "c16_block_before_future": {
+        "props": ["C16"],
+        "edits": [(TC, "        type_checking_block_add_location = 0\n", "        type_checking_block_add_location = 0\n        return ([], list(module.body))\n")],
+    },
+    "c16_import_removal_regress": {
+        "props": ["C16", "C15"],
+        "edits": [(TC, "                if import_item.module_name == module_name and not import_item.obj_name:", "                if import_item.module_name == module_name:")],
+    },
+    "c16_alias_regress": {
+        "props": ["C16"],
+        "edits": [(TC, "                    and import_item.alias == alias\n", "")],
+    },
+    "c16_typeddict_confined": {
+        "props": ["C16"],
+        "edits": [(TC, '            if import_item.module_name not in ("typing", "mypy_extensions"):', '            if import_item.module_name not in ("typing",):')],
+    },
+    "c16_no_future_import": {
+        "props": ["C16"],
+        "edits": [(CLI, "            use_future_annotations=confine_new_imports_in_type_checking_block,", "            use_future_annotations=False,")],
+    },
+    "c16_nothing_confined": {
+        "props": ["C16"],
+        "edits": [(CLI, "            newly_imported_items = get_newly_imported_items(stub_module, source_module)", "            newly_imported_items = get_newly_imported_items(stub_module, source_module)[:1]")],
     },
 }
